@@ -1324,6 +1324,16 @@ def _range_gen(M, r):
         yield lo
 
 
+@model('RangeInclusive::new')
+def _range_inclusive_new(M, a, info):
+    # modelled as the half-open range start..end+1 (end == MAX would overflow: rejected)
+    hi = a[1]
+    if is_sym(hi):
+        if M.I.branch(hi == z3.BitVecVal(MASK[64], 64)): raise Unsupported('RangeInclusive ending at usize::MAX')
+        return Adt('Range', None, None, [a[0], hi + 1])
+    return Adt('Range', None, None, [a[0], hi + 1])
+
+
 @model('IntoIterator::into_iter', 'Iterator::by_ref', 'Option::iter', 'Option::into_iter', 'HashMap::iter',
        'HashSet::iter', 'HashMap::iter_mut', 'HashMap::into_iter')
 def _into_iter(M, a, info):
